@@ -16,6 +16,9 @@ def extract_parameters(input=None, output_prefix=None, output_suffix=None,
     # Read in table of parameters for model grid
     t = load_parameter_table(fin.meta.model_dir)
 
+    t['MODEL_NAME'] = np.char.strip(t['MODEL_NAME'])
+    t.sort('MODEL_NAME')
+
     format = {}
     for par in t.dtype.names:
         if par == 'MODEL_NAME':
